@@ -17,7 +17,8 @@
 
   The negative side is a theorem as well: a named type that pass 1 missed is reachable from the
   clone at its original address (`heap_clone_missed_type_is_shared`: the shape of finding F-10i and
-  of seeded change C10-24).
+  of seeded change C10-24), and a cycle through inner nodes has no clone for any fuel
+  (`heap_clone_inner_cycle_no_result`: finding F-10j, Go's stack overflow).
 -/
 import ApiFu.C10.CloneHeap
 
@@ -330,5 +331,63 @@ example : ∃ r' H, clone 8 exHeap exL 0 100 = some (r', H) ∧ (∀ k, unfold H
   have hd : ∀ a, a < 17 → ∀ n, nameOf (exHeap a) = some n → tblOf exL 100 n = none → n ∈ builtinNames := by
     decide +kernel
   exact hd a hlt n (by simp [ha, nameOf]) ht
+
+/-! ## Inner cycles (finding F-10j) -/
+
+theorem mapSt_none {f : Nat → St → Option (Nat × St)} {k : Nat} (hk : ∀ s, f k s = none) :
+    ∀ (ks : List Nat), k ∈ ks → ∀ s, mapSt f ks s = none := by
+  intro ks
+  induction ks with
+  | nil => intro h; cases h
+  | cons a as ih =>
+    intro hmem s
+    simp only [mapSt]
+    cases hfa : f a s with
+    | none => rfl
+    | some p =>
+      obtain ⟨a1, s1⟩ := p
+      cases hmem with
+      | head => rw [hk s] at hfa; cases hfa
+      | tail _ hm => simp only [ih hm s1]
+
+/-- **An inner cycle has no clone** (finding F-10j): if from `a` one can go on forever through
+    inner nodes — a set `C` of inner nodes each of which points at a member of `C`, e.g.
+    `*DirectiveDefinition` → Arguments map → `*InputValueDefinition` → `[]*Directive` → `*Directive` →
+    the same `*DirectiveDefinition` — then `fixPtr` returns for no amount of fuel: the Go recursion
+    does not terminate (stack overflow). -/
+theorem heap_clone_inner_cycle_no_result {h : Heap} {tbl : String → Option Nat} {C : Nat → Prop}
+    (hC : ∀ a, C a → ∃ l ks, h a = some (.inner l ks) ∧ ∃ k, k ∈ ks ∧ C k) :
+    ∀ fuel a s, C a → fixPtr h tbl fuel a s = none := by
+  intro fuel
+  induction fuel with
+  | zero => intro a s _; rfl
+  | succ fuel ih =>
+    intro a s ha
+    obtain ⟨l, ks, hh, k, hk, hCk⟩ := hC a ha
+    simp only [fixPtr, hh]
+    rw [mapSt_none (fun s => ih k s hCk) ks hk s]
+
+/-- `directive @d(a: Int @d)`: 0 definition → 1 argument map → 2 input value → [5 `Int`, 3 directives
+    slice] → 4 directive → 0. -/
+def exCycle : Heap
+  | 0 => some (.inner "ddef" [1])
+  | 1 => some (.inner "args{a}" [2])
+  | 2 => some (.inner "iv" [5, 3])
+  | 3 => some (.inner "[]*Directive" [4])
+  | 4 => some (.inner "directive" [0])
+  | 5 => some (.named "Int" "scalar" [])
+  | _ => none
+
+example : ∀ fuel s, fixPtr exCycle (fun _ => none) fuel 0 s = none := by
+  intro fuel s
+  apply heap_clone_inner_cycle_no_result (C := fun a => a < 5) _ fuel 0 s (by decide)
+  intro a ha
+  have : a = 0 ∨ a = 1 ∨ a = 2 ∨ a = 3 ∨ a = 4 := by omega
+  rcases this with rfl | rfl | rfl | rfl | rfl
+  · exact ⟨_, _, rfl, 1, by simp, by decide⟩
+  · exact ⟨_, _, rfl, 2, by simp, by decide⟩
+  · exact ⟨_, _, rfl, 3, by simp, by decide⟩
+  · exact ⟨_, _, rfl, 4, by simp, by decide⟩
+  · exact ⟨_, _, rfl, 0, by simp, by decide⟩
 
 end ApiFu.C10.CloneHeap
